@@ -17,17 +17,18 @@ from . import vlib
 CORE = ["visited", "score", "ret", "args", "run", "reuse", "selfassess.run", "selfassess.score", "selfassess.ret",
         "gen.agree", "gen.weight", "upd.args", "upd.constrained", "upd.kept", "upd.weight", "upd.discard",
         "project.value", "project.split", "regen.unselected", "regen.weight", "regen.empty", "idx.local"]
-UPD = ["upd.args", "upd.constrained", "upd.kept", "upd.weight", "upd.discard", "run"]
+TRC = ["visited", "score", "ret"]      # the new trace is the execution its choices describe (needed to see stale scores)
+UPD = ["upd.args", "upd.constrained", "upd.kept", "upd.weight", "upd.discard", "run"] + TRC
 
 ALLP = ["D0", "SOne", "SChain", "SIndep", "SNest", "SLit", "S2", "VmD", "VmS", "VmAx", "VmAx2", "VmMask", "Rep", "Rep3",
         "Sc1", "Sc2", "Sc3", "ScSw", "SwXY", "SwSame", "Sw3", "SSw", "SVm", "Msk", "MskD", "Dm", "Dm2", "DmMap", "DmCon",
         "DmSc", "OrE", "MixE", "Acc", "Red", "It", "ItF", "MIt", "MItF", "MItF1"]
-FAST = ["D0", "SOne", "SChain", "SIndep", "SNest", "SLit", "S2", "VmD", "VmS", "VmAx", "VmAx2", "VmMask", "Rep", "Rep3",
+FAST = ["D0", "SOne", "SChain", "SIndep", "SNest", "SLit", "S2", "SDm", "MskSw", "VmSw", "VmD", "VmS", "VmAx", "VmAx2", "VmMask", "Rep", "Rep3",
         "SwXY", "SwSame", "Sw3", "SSw", "SVm", "Msk", "MskD", "Dm", "Dm2", "DmMap", "DmCon", "OrE", "MixE"]
 SLOW = ["Sc1", "Sc2", "Sc3", "ScSw", "DmSc", "Acc", "Red", "It", "ItF"]    # masked-iterate programs belong to C16 only
 EAGER = ["Clo1", "Clo2", "Clo0", "CloP", "CloK", "D0", "SOne", "SChain", "SIndep", "SNest", "SLit", "S2", "SDup", "Dm", "Dm2", "DmMap", "DmCon", "Msk", "MskD"]
 EAGER_ND = [x for x in EAGER if x != "SDup"]
-REGEN = ["D0", "SOne", "SChain", "SIndep", "SNest", "S2", "Dm", "Dm2", "DmMap", "DmCon"]
+REGEN = ["D0", "SOne", "SChain", "SIndep", "SNest", "S2", "SDm", "Dm", "Dm2", "DmMap", "DmCon"]
 REGEN_SLOW = ["Sc1", "Sc2", "DmSc", "It"]
 PROJ = ["D0", "SOne", "SChain", "SIndep", "SNest", "S2", "VmD", "VmS", "VmAx", "Rep", "SwXY", "SwSame", "Sw3", "SSw", "SVm",
         "Dm", "Dm2", "OrE", "MixE"]
@@ -60,7 +61,7 @@ PROFILES = {
     "C06": dict(own=["undo.run", "undo.restore", "undo.weight"],
                 gens=[dict(ids=FAST, first=["simulate", "generate"], edits=["update", "updateargs", "regenerate", "indexupdate", "indexregen", "staticreq", "diffannotate", "empty"], depth=3, n=(128, 2400)),
                       dict(ids=SLOW, first=["simulate"], edits=["update", "regenerate", "indexupdate", "indexregen"], depth=2, n=(24, 500))]),
-    "C07": dict(own=["regen.unselected", "regen.weight", "regen.empty", "upd.args"],
+    "C07": dict(own=["regen.unselected", "regen.weight", "regen.empty", "upd.args"] + TRC,
                 gens=[dict(ids=REGEN, first=["simulate", "generate"], edits=["regenerate", "regenerate", "regenerate", "update"], depth=3, n=(128, 2400)),
                       dict(ids=REGEN_SLOW, first=["simulate"], edits=["regenerate"], depth=2, n=(24, 400))]),
     "C08": dict(own=["nochange", "tagging", "tagging.run"],
@@ -71,25 +72,25 @@ PROFILES = {
                 gens=[dict(ids=PROJ, first=["simulate", "generate"], edits=["project", "project", "project", "update"], depth=4, n=(128, 2400)),
                       dict(ids=PROJ_SLOW, first=["simulate"], edits=["project"], depth=3, n=(30, 300))]),
     "C11": dict(own=CORE,
-                gens=[dict(ids=["VmD", "VmS", "VmAx", "VmAx2", "VmMask", "Rep", "Rep3", "SVm"], first=["simulate", "generate"], edits=["update", "updateargs", "indexupdate", "indexregen", "project"], depth=3, n=(128, 2400)),
+                gens=[dict(ids=["VmD", "VmS", "VmAx", "VmAx2", "VmMask", "Rep", "Rep3", "SVm", "VmSw"], first=["simulate", "generate"], edits=["update", "updateargs", "indexupdate", "indexregen", "project"], depth=3, n=(128, 2400)),
                       dict(ids=["VmD", "Rep3"], ids_thorough=["VmD", "VmS", "Rep", "Rep3", "VmAx"], first=["generate"], edits=[], depth=0, n=(0, 0), sub=True)]),
     "C12": dict(own=CORE,
                 gens=[dict(ids=["Sc1", "Sc2", "Sc3", "DmSc", "Acc", "Red", "It", "ItF"], first=["simulate", "generate"], edits=["update", "updateargs", "regenerate", "indexupdate", "indexregen"], depth=2, n=(64, 900))]),
     "C13": dict(own=CORE,
-                gens=[dict(ids=["SwXY", "SwSame", "Sw3", "SSw", "OrE", "MixE"], first=["simulate", "generate"], edits=["update", "update", "updateargs", "project"], depth=3, n=(128, 2400)),
+                gens=[dict(ids=["SwXY", "SwSame", "Sw3", "SSw", "OrE", "MixE", "MskSw", "VmSw"], first=["simulate", "generate"], edits=["update", "update", "updateargs", "project"], depth=3, n=(128, 2400)),
                       dict(ids=["SwXY", "SwSame"], ids_thorough=["SwXY", "SwSame", "OrE", "MixE", "Sw3"], first=["generate"], edits=[], depth=0, n=(0, 0), sub=True)]),
     "C14": dict(own=CORE,
-                gens=[dict(ids=["Msk", "MskD", "VmMask"], first=["simulate", "generate"], edits=["update", "updateargs", "updateargs", "updatemask"], depth=3, n=(128, 2400))]),
+                gens=[dict(ids=["Msk", "MskD", "VmMask", "MskSw"], first=["simulate", "generate"], edits=["update", "updateargs", "updateargs", "updatemask"], depth=3, n=(128, 2400))]),
     "C15": dict(own=CORE + ["nochange"],
-                gens=[dict(ids=["Dm", "Dm2", "DmMap", "DmCon"], first=["simulate", "generate"], edits=["update", "updateargs", "updateargs", "regenerate", "project"], depth=3, n=(128, 2400)),
+                gens=[dict(ids=["Dm", "Dm2", "DmMap", "DmCon", "SDm"], first=["simulate", "generate"], edits=["update", "updateargs", "updateargs", "regenerate", "project"], depth=3, n=(128, 2400)),
                       dict(ids=["DmSc"], first=["simulate"], edits=["update", "updateargs"], depth=2, n=(16, 200))]),
     "C16": dict(own=CORE,
                 gens=[dict(ids=["MIt", "MItF", "MItF1"], first=["simulate", "generate"], edits=["update", "updateargs"], depth=1, n=(64, 600))]),
     "C22": dict(own=["visited", "reuse", "run", "missing", "assess.run"],
                 gens=[dict(ids=["SOne", "SChain", "SIndep", "SNest", "SLit", "S2", "SDup", "SSw", "SVm"], first=["simulate", "generate"], edits=["update", "regenerate", "staticreq", "assess", "assess", "assess"], depth=3, n=(160, 2000))]),
     "C23": dict(own=["mode.status", "mode.same"], modes=True,
-                gens=[dict(ids=[x for x in FAST if x not in ("SLit",)] + ["VmNest"], first=["simulate", "generate"], edits=["update", "update", "updateargs", "regenerate", "project"], depth=2, n=(96, 1500)),
-                      dict(ids=SLOW, first=["simulate", "generate"], edits=["update", "regenerate", "indexupdate"], depth=1, n=(20, 300))]),
+                gens=[dict(ids=[x for x in FAST if x not in ("SLit",)] + ["VmNest"], first=["simulate", "generate"], edits=["update", "update", "updateargs", "regenerate", "project"], depth=2, n=(48, 1500)),
+                      dict(ids=SLOW, first=["simulate", "generate"], edits=["update", "regenerate", "indexupdate"], depth=1, n=(8, 300))]),
     "C32": dict(own=CORE + ["derived.run", "derived.same", "undo.run", "undo.restore", "undo.weight"],
                 gens=[dict(ids=["Clo1", "Clo2", "Clo0", "CloP", "CloK", "CloSw", "CloVm"], first=["simulate", "generate"],
                            edits=["update", "update", "updateargs", "regenerate", "project", "assess"], depth=3, n=(120, 1500))]),
